@@ -88,6 +88,7 @@ structure RegD where
 structure LayoutD where
   emptyName : Nat                     -- id of the empty string (an absent uid)
   computed : List (Nat × Nat × Nat)   -- (register index, rule, index of the computed bit-field)
+  aux : List Nat                      -- kind specific: FCB/BCA [index of the tag register]; memcfg [count rule, register, field, enum value]
   regs : List RegD
   deriving Repr
 
@@ -106,8 +107,9 @@ def RegD.ofRaw (x : List Nat × List (List Nat)) : RegD :=
     { init := init, name := name, uid := uid, reverse := flags % 2 == 1, access := flags / 2, fields := x.2.map FieldD.ofRaw }
   | _ => { init := 0, name := 0, uid := 0, reverse := false, access := 0, fields := [] }
 
-def LayoutD.ofRaw (emptyName : Nat) (computed : List (Nat × Nat × Nat)) (raw : List (List Nat × List (List Nat))) : LayoutD :=
-  { emptyName := emptyName, computed := computed, regs := raw.map RegD.ofRaw }
+def LayoutD.ofRaw (emptyName : Nat) (computed : List (Nat × Nat × Nat)) (aux : List Nat)
+    (raw : List (List Nat × List (List Nat))) : LayoutD :=
+  { emptyName := emptyName, computed := computed, aux := aux, regs := raw.map RegD.ofRaw }
 
 abbrev Vals := List Nat
 
@@ -215,6 +217,16 @@ def nodupB : List Nat → Bool
   | [] => true
   | x :: xs => !xs.contains x && nodupB xs
 
+/-- linear-time duplicate check for small numbers (ids): the sum of the powers of two equals their bitwise or
+    iff no id occurs twice (`nodupFastB_sound`); the kernel evaluates it with big-number arithmetic -/
+def sumPow : List Nat → Nat
+  | [] => 0
+  | a :: t => 2 ^ a + sumPow t
+def orPow : List Nat → Nat
+  | [] => 0
+  | a :: t => 2 ^ a ||| orPow t
+def nodupFastB (l : List Nat) : Bool := sumPow l == orPow l
+
 def computedWFb (l : Layout) : Bool :=
   l.computed.all (fun ir => match l.regs[ir.1]? with
     | some r => r.width == 32 && ir.2 ≤ 1
@@ -230,6 +242,29 @@ def layoutWFb (l : Layout) : Bool :=
      computedWFb l &&
      (l.sealCount == 0 || (l.size != 0 && l.sealStart + l.sealCount * 4 ≤ l.size))))
 
+
+
+/-! ### enum names in configurations (`RegsBitField.get_enum_value / get_enum_constant / set_enum_value`) -/
+
+/-- `get_enum_constant(name)`: value of the FIRST enum with that name -/
+def enumConstant (enums : List (Nat × Nat)) (name : Nat) : Option Nat := (enums.find? (fun e => e.2 == name)).map (·.1)
+
+/-- what a configuration holds for a bit-field value: an enum name or a number -/
+inductive CfgVal where
+  | name (n : Nat)
+  | num (v : Nat)
+  deriving Repr, DecidableEq
+
+/-- `get_enum_value()`: the name of the first enum with this value if that name decodes back to the value, else the number -/
+def enumValue (enums : List (Nat × Nat)) (v : Nat) : CfgVal :=
+  match enums.find? (fun e => e.1 == v) with
+  | some e => if enumConstant enums e.2 = some v then .name e.2 else .num v
+  | none => .num v
+
+/-- `set_enum_value(x)`: a known name gives its constant, a number itself; an unknown name is refused -/
+def decodeCfgVal (enums : List (Nat × Nat)) : CfgVal → Option Nat
+  | .name n => enumConstant enums n
+  | .num v => some v
 
 /-! ### Boolean checkers over a layout together with its details (run by the kernel over the generated tables) -/
 
@@ -256,10 +291,10 @@ def enumsFitB (l : Layout) (d : LayoutD) : Bool :=
 /-- no two registers share a name; no two registers share a (non-empty) uid (XMCD merges the registers of two specification
     files, header and option block, whose uids are independent: names only) -/
 def regNamesB (l : Layout) (d : LayoutD) : Bool :=
-  nodupB (d.regs.map (·.name)) && (l.kind == 7 || nodupB ((d.regs.map (·.uid)).filter (· != d.emptyName)))
+  nodupFastB (d.regs.map (·.name)) && (l.kind == 7 || nodupFastB ((d.regs.map (·.uid)).filter (· != d.emptyName)))
 
 /-- no two bit-fields of one register share a name -/
-def fieldNamesB (d : LayoutD) : Bool := d.regs.all (fun rd => nodupB (rd.fields.map (·.name)))
+def fieldNamesB (d : LayoutD) : Bool := d.regs.all (fun rd => nodupFastB (rd.fields.map (·.name)))
 
 /-- the computed bit-field named by the database is exactly the bits the rule writes (rule 0: bits 16..31, rule 1: bits 8..15),
     sits in a 32-bit register and is hidden in the loaded object -/
@@ -274,6 +309,82 @@ def computedTargetsB (l : Layout) (d : LayoutD) : Bool :=
 /-- the seal words are whole 32-bit registers -/
 def sealRegsB (l : Layout) : Bool :=
   (List.range l.sealCount).all (fun k => l.regs.any (fun r => r.off == l.sealStart + 4 * k && r.width == 32))
+
+
+
+/-- FCB layouts: the tag register is the first word, its reset value is the FCB tag, the block is at least FCB.SIZE long (the
+    parser's length check accepts every export) and has an even length (byte-swapped images) -/
+def fcbTableB (minSize : Nat) (tag : Bytes) (l : Layout) (d : LayoutD) : Bool :=
+  match d.aux with
+  | [ti] => (match l.regs[ti]?, d.regs[ti]? with
+    | some r, some rd => r.off == 0 && r.width == 32 && !r.hidden && leEnc 4 rd.init == tag
+    | _, _ => false) && decide (minSize ≤ l.exportLen) && l.exportLen % 2 == 0
+  | _ => false
+
+def wordsFromB : Nat → List RegL → Bool
+  | _, [] => true
+  | k, r :: rs => r.off == 4 * k && r.width == 32 && r.cov == 32 && !r.hidden && wordsFromB (k + 1) rs
+
+/-- memcfg layouts: the count rule is resolvable, every register is a visible 32-bit word at offset 4·i -/
+def memcfgTableB (l : Layout) (d : LayoutD) : Bool :=
+  (match d.aux with
+   | [rule, ri, fi, _] => decide (rule ≤ 2) && (rule == 0 || (ri == 0 && (match l.regs[ri]? with
+      | some r => decide (fi < r.fields.length)
+      | none => false)))
+   | _ => false) && wordsFromB 0 l.regs && !l.regs.isEmpty
+
+/-! ### the parsers of the segment areas (`FCB.parse`, `BCA.parse`, `FCF.parse`) -/
+
+/-- `tag.get_bytes_value() != cls.TAG` after `registers.parse` -/
+def tagCheck (tag : Bytes) (tagIdx : Nat) (l : Layout) (vals : Vals) : PyRes Vals :=
+  match l.regs[tagIdx]? with
+  | none => .error .spsdk                       -- find_reg raises SPSDKRegsErrorRegisterNotFound
+  | some r => if leEnc r.bytes (vals.getD tagIdx 0) = tag then .ok vals else .error .spsdk
+
+/-- `FCB.parse(binary)` into a fresh object holding `cur`: length check against FCB.SIZE, byte-swapped image detection
+    (`binary[:4] == swap_bytes(TAG)` → `swap_bytes(binary)`, a ValueError for an odd length), `registers.parse` over the WHOLE
+    binary, tag check -/
+def fcbParse (minSize : Nat) (tag : Bytes) (tagIdx : Nat) (l : Layout) (b : Bytes) (cur : Vals) : PyRes Vals :=
+  if b.length < minSize then .error .spsdk else
+  match (if b.take tag.length = swapPairs tag then swapBytes b else .ok b) with
+  | .error e => .error e
+  | .ok b' => tagCheck tag tagIdx l (parseArea l b' cur)
+
+/-- `BCA.parse`: no length check, `registers.parse`, tag check -/
+def bcaParse (tag : Bytes) (tagIdx : Nat) (l : Layout) (b : Bytes) (cur : Vals) : PyRes Vals :=
+  tagCheck tag tagIdx l (parseArea l b cur)
+
+/-- `FCF.parse`: length check against FCF.SIZE, `registers.parse` -/
+def fcfParse (minSize : Nat) (l : Layout) (b : Bytes) (cur : Vals) : PyRes Vals :=
+  if b.length < minSize then .error .spsdk else .ok (parseArea l b cur)
+
+/-! ### memory-configuration option words (`MemoryConfig.option_words_count / option_words / parse`) -/
+
+/-- number of option words that count: rule 0 `All`, 1 `OptionSize` (1 + the field of the first register), 2 `AcTimingMode`
+    (all words iff the field reads the enum value `UserDefined`); anything else raises -/
+def owCount (aux : List Nat) (l : Layout) (vals : Vals) : PyRes Nat :=
+  match aux with
+  | [rule, ri, fi, ud] =>
+    if rule = 0 then .ok l.regs.length
+    else match l.regs[ri]? with
+      | none => .error .spsdk
+      | some r => match r.fields[fi]? with
+        | none => .error .spsdk
+        | some f =>
+          let fv := (vals.getD ri 0 >>> f.off) % 2 ^ f.width
+          if rule = 1 then .ok (1 + fv)
+          else if rule = 2 then .ok (if fv = ud then l.regs.length else 1)
+          else .error .spsdk
+  | _ => .error .spsdk
+
+/-- `option_words`: the leading registers that count (all registers of these areas are visible) -/
+def optionWords (aux : List Nat) (l : Layout) (vals : Vals) : PyRes (List Nat) :=
+  match owCount aux l vals with
+  | .error e => .error e
+  | .ok n => .ok (vals.take n)
+
+/-- `option_words_to_bytes` -/
+def owBytes (ws : List Nat) : Bytes := ws.flatMap (leEnc 4)
 
 /-! ### XMCD: header word and CRC -/
 
